@@ -49,6 +49,21 @@ PrefixKept(ns, tn) ==
     /\ \A i \in 1..(Len(tn) - 1) : ns[i] = tn[i]
     /\ (tn # <<>> => ns[Len(tn)].pos = tn[Len(tn)].pos)
 
+(* C06 (c) for input that only lacks closing delimiters: cn = strict tree of the input completed with its closers.   *)
+(* Every leaf (node without children: characters, comments, specials, argument-less macros) of cn that ends inside    *)
+(* the original input is a leaf of the tolerant result ns, in the same order.                                           *)
+RECURSIVE LeavesOf(_)
+RECURSIVE LeavesSeq(_, _)
+LeavesOf(n) == IF Kids(n) = <<>> /\ n.k \in {"chars", "comment", "specials", "macro"} THEN << <<n.k, n.pos, n.end, n.name>> >>
+               ELSE LeavesSeq(Kids(n), 1)
+LeavesSeq(ns, i) == IF i > Len(ns) THEN <<>> ELSE LeavesOf(ns[i]) \o LeavesSeq(ns, i + 1)
+RECURSIVE IsSubseq(_, _, _, _)
+IsSubseq(a, i, b, j) == IF i > Len(a) THEN TRUE ELSE IF j > Len(b) THEN FALSE
+                        ELSE IF a[i] = b[j] THEN IsSubseq(a, i + 1, b, j + 1) ELSE IsSubseq(a, i, b, j + 1)
+CompletionKept(ns, cn, slen) ==
+    LET want == SelectSeq(LeavesSeq(cn, 1), LAMBDA x : x[3] <= slen /\ x[3] > x[2]) IN
+    IsSubseq(want, 1, LeavesSeq(ns, 1), 1)
+
 (* C13: no comment, environment or math node anywhere in the tree *)
 RECURSIVE InertSeq(_, _)
 InertNode(n) == n.k \notin {"comment", "env", "math"} /\ InertSeq(Kids(n), 1)
